@@ -697,3 +697,143 @@ def by_name(name):
         if nm == name:
             return p
     raise KeyError(name)
+
+
+# --------------------------------------------------------------------------
+# callee variants for call_eqv (C10) and near-miss targets for replace (C05)
+
+from exo.stdlib.scheduling import simplify as _simplify, rename as _rename, divide_loop as _divide_loop, write_config as _write_config, reorder_loops as _reorder_loops
+
+ORIGIN = {p.name(): p.name() for p in SUBPROCS}
+
+
+def _variant(p, origin):
+    SUBPROCS.append(p)
+    ORIGIN[p.name()] = origin
+    return p
+
+
+# equivalence-preserving derivations of sp_copy / sp_add2d / sp_cfg_scale
+sp_copy_v2 = _variant(_rename(_divide_loop(sp_copy, "i", 2, ["io", "ii"], tail="cut"), "sp_copy_v2"), "sp_copy")
+sp_copy_cfg = _variant(_rename(_write_config(sp_copy, sp_copy.body()[0].before(), CfgA, "b", 1), "sp_copy_cfg"), "sp_copy")
+sp_add2d_v2 = _variant(_rename(_reorder_loops(sp_add2d, "i j"), "sp_add2d_v2"), "sp_add2d")
+sp_cfg_scale_v2 = _variant(_rename(_simplify(sp_cfg_scale), "sp_cfg_scale_v2"), "sp_cfg_scale")
+# NOT equivalence-tracked: signature/assertion-changing derivations (call_eqv must refuse them)
+sp_fill_asrt = _variant(_rename(sp_fill.add_assertion("n > 2"), "sp_fill_asrt"), "NEW:sp_fill_asrt")
+sp_copy_pe = _variant(_rename(sp_copy.partial_eval(n=4), "sp_copy_pe"), "NEW:sp_copy_pe")
+
+
+# same text as sp_copy but a different origin
+@sub
+@seed("sub", "window", "loop1", "twin")
+@proc
+def sp_copy_twin(n: size, dst: [f32][n], src: [f32][n]):
+    for i in seq(0, n):
+        dst[i] = src[i]
+
+
+ORIGIN["sp_copy_twin"] = "sp_copy_twin"
+
+
+@seed("call", "config", "call_eqv")
+@proc
+def s_call_cfg_scale(n: size, x: f32[n], y: f32[n]):
+    CfgA.s = 2.0
+    sp_cfg_scale(n, x)
+    sp_copy(n, y, x)
+    CfgA.b = 0
+
+
+@seed("replace_target", "transposed")
+@proc
+def s_nm_transposed(n: size, x: f32[n, n], y: f32[n, n]):
+    for j in seq(0, n):
+        for i in seq(0, n):
+            y[i, j] = x[j, i]
+
+
+@seed("replace_target", "strided")
+@proc
+def s_nm_strided(n: size, x: f32[2 * n], y: f32[n]):
+    for i in seq(0, n):
+        y[i] = x[2 * i]
+
+
+@seed("replace_target", "reversed")
+@proc
+def s_nm_reversed(n: size, x: f32[n], y: f32[n]):
+    for i in seq(0, n):
+        y[i] = x[n - 1 - i]
+
+
+@seed("replace_target", "offset")
+@proc
+def s_nm_offset(n: size, x: f32[n + 3], y: f32[n + 3]):
+    for i in seq(0, n):
+        y[i + 1] = x[i + 2]
+
+
+@seed("replace_target", "col_zero", "stride")
+@proc
+def s_nm_col_zero(A: f32[4, 4]):
+    for j in seq(0, 4):
+        for i in seq(0, 4):
+            A[i, j] = 0.0
+
+
+@seed("replace_target", "fill_one", "assert")
+@proc
+def s_nm_fill1(x: f32[4], v: f32):
+    for i in seq(0, 1):
+        x[i] = v
+    for i in seq(0, 3):
+        x[i + 1] = v
+
+
+@seed("replace_target", "set_at_edge", "assert")
+@proc
+def s_nm_set_edge(n: size, x: f32[n + 1], v: f32):
+    x[n] = v
+    x[0] = v
+
+
+@seed("replace_target", "acc")
+@proc
+def s_nm_acc(n: size, x: f32[n], out: f32):
+    out = 0.0
+    for i in seq(0, n):
+        out += x[i]
+
+
+@seed("replace_target", "add2d_swapped")
+@proc
+def s_nm_add2d(n: size, m: size, A: f32[n, m], B: f32[m, n]):
+    for i in seq(0, n):
+        for j in seq(0, m):
+            A[i, j] += B[j, i]
+
+
+@seed("replace_target", "vec8")
+@proc
+def s_vec8(x: f32[16], y: f32[16], z: f32[16]):
+    for i in seq(0, 8):
+        z[i] = x[i] * y[i]
+    for i in seq(0, 8):
+        z[8 + i] += x[8 + i] * y[i]
+
+
+@seed("replace_target", "vec8", "prefix")
+@proc
+def s_vec8_prefix(m: size, x: f32[8], y: f32[8]):
+    assert m <= 8
+    for i in seq(0, 8):
+        if i < m:
+            y[i] = x[i]
+
+
+@seed("names", "i_1")
+@proc
+def s_names(n: size, x: f32[2 * n, 2]):
+    for i in seq(0, 2 * n):
+        for i_1 in seq(0, 2):
+            x[i, i_1] = 1.0
